@@ -197,7 +197,7 @@ theorem step_xinv {c : Cfg} {s s' : St} (hi : Inv s) (hd : DInv c s) (h : XInv s
       exact xinv_setSub h1 k _ ⟨rfl, rfl, rfl, rfl⟩ (by simp) (fun x => x)
     · simp at hs
   | cancel k =>
-    simp only [step, Option.some.injEq] at hs; subst hs
+    simp only [step] at hs; split at hs <;> simp at hs; subst hs
     exact xinv_setSub h k _ ⟨rfl, rfl, rfl, rfl⟩ (fun _ => rfl) (fun _ => rfl)
   | pubCall p =>
     simp only [step] at hs
@@ -335,7 +335,7 @@ theorem step_xinv {c : Cfg} {s s' : St} (hi : Inv s) (hd : DInv c s) (h : XInv s
     simp only [step] at hs; split at hs <;> simp at hs; subst hs
     exact xinv_congr h rfl rfl rfl (fun x => x)
   | shutCancel k =>
-    simp only [step, Option.some.injEq] at hs; subst hs
+    simp only [step] at hs; split at hs <;> simp at hs; subst hs
     exact xinv_congr h rfl rfl rfl (fun x => x)
 
 theorem reachable_all {c : Cfg} {s : St} (h : Reachable c s) : Inv s ∧ DInv c s ∧ XInv s := by
@@ -435,7 +435,7 @@ theorem step_endAt {c : Cfg} {s s' : St} (hi : Inv s) (hd : DInv c s) (l : Label
     by_cases hik : i = k
     · subst hik; simpa [setSub] using h1
     · simpa [setSub, upd, hik] using h1
-  | cancel k => simp only [step, Option.some.injEq] at hs; subst hs; exact endStep_setSub _ _ _ _ rfl
+  | cancel k => simp only [step] at hs; split at hs <;> simp at hs; subst hs; exact endStep_setSub _ _ _ _ rfl
   | pubCall p => simp only [step] at hs; split at hs <;> simp at hs; subst hs; exact Or.inl rfl
   | pubNoTopic p => simp only [step] at hs; split at hs <;> simp at hs; subst hs; exact Or.inl rfl
   | pubAccept p o =>
@@ -499,7 +499,7 @@ theorem step_endAt {c : Cfg} {s s' : St} (hi : Inv s) (hd : DInv c s) (l : Label
   | shutRecovered k => simp only [step] at hs; split at hs <;> simp at hs; subst hs; exact Or.inl rfl
   | shutSeeClosed k => simp only [step] at hs; split at hs <;> simp at hs; subst hs; exact Or.inl rfl
   | shutCtx k => simp only [step] at hs; split at hs <;> simp at hs; subst hs; exact Or.inl rfl
-  | shutCancel k => simp only [step, Option.some.injEq] at hs; subst hs; exact Or.inl rfl
+  | shutCancel k => simp only [step] at hs; split at hs <;> simp at hs; subst hs; exact Or.inl rfl
 
 
 theorem sendChan_log (s : St) (i : SubId) (e : Err) : (sendChan s i e).log = s.log := by
@@ -584,7 +584,7 @@ theorem step_log {c : Cfg} {s s' : St} (l : Label) (hs : step c s l = some s') :
   | subCall k => left; simp only [step] at hs; split at hs <;> simp at hs; subst hs; rfl
   | subClosedEarly k => left; simp only [step] at hs; split at hs <;> simp at hs; subst hs; rfl
   | subSeeCancel k => left; simp only [step] at hs; split at hs <;> simp at hs; subst hs; rfl
-  | cancel k => left; simp only [step, Option.some.injEq] at hs; subst hs; rfl
+  | cancel k => left; simp only [step] at hs; split at hs <;> simp at hs; subst hs; rfl
   | pubCall p => left; simp only [step] at hs; split at hs <;> simp at hs; subst hs; rfl
   | pubNoTopic p => left; simp only [step] at hs; split at hs <;> simp at hs; subst hs; rfl
   | pubClosedEarly p => left; simp only [step] at hs; split at hs <;> simp at hs; subst hs; rfl
@@ -595,7 +595,7 @@ theorem step_log {c : Cfg} {s s' : St} (l : Label) (hs : step c s l = some s') :
   | shutRecovered k => left; simp only [step] at hs; split at hs <;> simp at hs; subst hs; rfl
   | shutSeeClosed k => left; simp only [step] at hs; split at hs <;> simp at hs; subst hs; rfl
   | shutCtx k => left; simp only [step] at hs; split at hs <;> simp at hs; subst hs; rfl
-  | shutCancel k => left; simp only [step, Option.some.injEq] at hs; subst hs; rfl
+  | shutCancel k => left; simp only [step] at hs; split at hs <;> simp at hs; subst hs; rfl
 
 /-- a run of the system: `Run c s ls s'` — the labels `ls` lead from `s` to `s'` -/
 inductive Run (c : Cfg) : St → List Label → St → Prop
@@ -735,7 +735,7 @@ theorem step_replayer {c : Cfg} {s s' : St} (l : Label) (hs : step c s l = some 
   | subCall k => simp only [step] at hs; split at hs <;> simp at hs; subst hs; exact hd
   | subClosedEarly k => simp only [step] at hs; split at hs <;> simp at hs; subst hs; exact hd
   | subSeeCancel k => simp only [step] at hs; split at hs <;> simp at hs; subst hs; exact hd
-  | cancel k => simp only [step, Option.some.injEq] at hs; subst hs; exact hd
+  | cancel k => simp only [step] at hs; split at hs <;> simp at hs; subst hs; exact hd
   | pubCall p => simp only [step] at hs; split at hs <;> simp at hs; subst hs; exact hd
   | pubNoTopic p => simp only [step] at hs; split at hs <;> simp at hs; subst hs; exact hd
   | pubClosedEarly p => simp only [step] at hs; split at hs <;> simp at hs; subst hs; exact hd
@@ -746,6 +746,6 @@ theorem step_replayer {c : Cfg} {s s' : St} (l : Label) (hs : step c s l = some 
   | shutRecovered k => simp only [step] at hs; split at hs <;> simp at hs; subst hs; exact hd
   | shutSeeClosed k => simp only [step] at hs; split at hs <;> simp at hs; subst hs; exact hd
   | shutCtx k => simp only [step] at hs; split at hs <;> simp at hs; subst hs; exact hd
-  | shutCancel k => simp only [step, Option.some.injEq] at hs; subst hs; exact hd
+  | shutCancel k => simp only [step] at hs; split at hs <;> simp at hs; subst hs; exact hd
 
 end GoSSE.Proofs.Joe
